@@ -7,8 +7,11 @@ import (
 	"math/big"
 	"testing"
 
+	"github.com/nspcc-dev/neo-go/pkg/crypto/keys"
 	"github.com/nspcc-dev/neo-go/pkg/encoding/address"
 	"github.com/nspcc-dev/neo-go/pkg/encoding/fixedn"
+	"github.com/nspcc-dev/neo-go/pkg/smartcontract"
+	"github.com/nspcc-dev/neo-go/pkg/smartcontract/scparser"
 	"verifharness/vt"
 )
 
@@ -57,6 +60,37 @@ var findingProbes = []finding{
 		new(big.Int).Sub(curveOf("p256").Params().N, new(big.Int).SetBytes(sig[32:])).FillBytes(alt[32:])
 		if priv.PublicKey().Verify(alt, digest[:]) {
 			return "PublicKey.Verify accepts the altered signature (r, N-s) of every valid (r, s): ECDSA malleability, no low-S rule (consensus behaviour shared with the reference node)"
+		}
+		return ""
+	}},
+	{kfZeroScalar, func() string {
+		k, err := keys.NewPrivateKeyFromBytes(make([]byte, 32))
+		if err != nil {
+			return ""
+		}
+		digest := sha256.Sum256([]byte("verif"))
+		if !k.PublicKey().Verify(k.SignHash(digest), digest[:]) {
+			return "NewPrivateKeyFromBytes (WIF, hex, NEP-2) accepts the scalar 0: the key signs, nothing it signs verifies, its public key (0,0) is encoded as 02 00..00, which decodes to another point (the existing test TestBadWIFDecode requires the WIF of the zero key to decode, so the repair that refuses scalars >= N could not include 0)"
+		}
+		return ""
+	}},
+	{kfMultisigKeyLimit, func() string {
+		var pubs keys.PublicKeys
+		x, y := curveOf(curveR1).Params().Gx, curveOf(curveR1).Params().Gy
+		for i := 0; i < 1025; i++ {
+			p, err := keys.NewPublicKeyFromBytes(append([]byte{byte(2 + y.Bit(0))}, x.FillBytes(make([]byte, 32))...), curveOf(curveR1))
+			if err != nil {
+				return ""
+			}
+			pubs = append(pubs, p)
+			x, y = curveOf(curveR1).Add(x, y, curveOf(curveR1).Params().Gx, curveOf(curveR1).Params().Gy)
+		}
+		script, err := smartcontract.CreateMultiSigRedeemScript(1, pubs)
+		if err != nil {
+			return ""
+		}
+		if _, _, ok := scparser.ParseMultiSigContract(script); !ok {
+			return "CreateMultiSigRedeemScript(1, 1025 keys) returns a script although the limit is 1024 KEYS (it tests m): ParseMultiSigContract and the VM refuse it (the existing test TestIsMultiSigContract/too_many_keys builds its input with this call, so the one-line repair breaks the unedited suite)"
 		}
 		return ""
 	}},
